@@ -411,27 +411,51 @@ pub fn run_mode2(seed: u64, thorough: bool, rep: &mut Report, http: bool, plugin
     let boot = BootChain::new();
     let mut master = Rng::new(seed);
     let ncases = if plugin_client { if thorough { 300 } else { 25 } } else if http { if thorough { 600 } else { 60 } } else if thorough { 4000 } else { 160 };
-    for c in 0..ncases {
-        let mut rng = master.fork();
-        let cfg = (
-            *rng.pick(&[1u32, 2, 3, 5, 8]),
-            [0u32, 1, 4, 10, 25, 150, 400][rng.weighted(&[3, 4, 8, 15, 25, 30, 15])],
-            *rng.pick(&[0u32, 1, 2, 6]),
-        );
-        let height = 100 + rng.below(40) as u32;
-        rep.begin_case(&format!("hist-{seed}-{c}"));
-        let mut sys = TowerSys::boot(cfg, height, &boot, rep);
-        if http {
-            sys.http = Some(std::sync::Arc::new(crate::httpfront::HttpFront::start(sys.api.clone())));
-            sys.use_plugin_client = plugin_client;
-        }
-        let nops = rng.range(15, if thorough { 140 } else { 70 }) as usize;
-        let mut g = Gen { rng, sys, world: World::new(), rep: &mut *rep, nlocs: 4, nusers: 3, monitors: true, mon: Default::default(), max_blob: if http { 800 } else { usize::MAX } };
-        g.history(nops, thorough);
-        let shape = g.world.shape.clone();
-        let nontrivial = shape.contains('A') && shape.contains('C');
-        drop(g);
-        rep.end_case(if nontrivial { Some(shape) } else { None });
+    // the cases are independent: they run on worker threads, each into its own report, merged in case order
+    let rngs: Vec<Rng> = (0..ncases).map(|_| master.fork()).collect();
+    let boot = std::sync::Arc::new(boot);
+    let next = std::sync::Arc::new(std::sync::atomic::AtomicUsize::new(0));
+    let results: std::sync::Arc<std::sync::Mutex<BTreeMap<usize, Report>>> = Default::default();
+    let rngs = std::sync::Arc::new(std::sync::Mutex::new(rngs.into_iter().map(Some).collect::<Vec<_>>()));
+    let workers = std::env::var("VERIF_WORKERS").ok().and_then(|x| x.parse().ok()).unwrap_or(if thorough { 12usize } else { 6 });
+    let mut handles = vec![];
+    for _ in 0..workers.max(1) {
+        let (boot, next, results, rngs) = (boot.clone(), next.clone(), results.clone(), rngs.clone());
+        handles.push(std::thread::spawn(move || loop {
+            let c = next.fetch_add(1, std::sync::atomic::Ordering::SeqCst);
+            if c >= ncases {
+                break;
+            }
+            let mut rng = rngs.lock().unwrap()[c].take().unwrap();
+            let mut rep = Report::detached();
+            let cfg = (
+                *rng.pick(&[1u32, 2, 3, 5, 8]),
+                [0u32, 1, 4, 10, 25, 150, 400][rng.weighted(&[3, 4, 8, 15, 25, 30, 15])],
+                *rng.pick(&[0u32, 1, 2, 6]),
+            );
+            let height = 100 + rng.below(40) as u32;
+            rep.begin_case(&format!("hist-{seed}-{c}"));
+            let mut sys = TowerSys::boot(cfg, height, &boot, &mut rep);
+            if http {
+                sys.http = Some(std::sync::Arc::new(crate::httpfront::HttpFront::start(sys.api.clone())));
+                sys.use_plugin_client = plugin_client;
+            }
+            let nops = rng.range(15, if thorough { 140 } else { 70 }) as usize;
+            let mut g = Gen { rng, sys, world: World::new(), rep: &mut rep, nlocs: 4, nusers: 3, monitors: true, mon: Default::default(), max_blob: if http { 800 } else { usize::MAX } };
+            g.history(nops, thorough);
+            let shape = g.world.shape.clone();
+            let nontrivial = shape.contains('A') && shape.contains('C');
+            drop(g);
+            rep.end_case(if nontrivial { Some(shape) } else { None });
+            results.lock().unwrap().insert(c, rep);
+        }));
+    }
+    for h in handles {
+        let _ = h.join();
+    }
+    let results = std::mem::take(&mut *results.lock().unwrap());
+    for (_, r) in results {
+        rep.absorb(r);
     }
     teos::vsync::set_observer(None);
     let edges = recorder.edges.lock().unwrap().clone();
